@@ -212,8 +212,14 @@ class LoopMixin:
         # 3. havoc, assume invariant
         s0 = st.copy()
         entry_heap = st.heap.snapshot()
-        for key in written:
+        for key, how in written.items():
             s0.heap.havoc(key)
+            if how != "whole":
+                # only `how` (loop-invariant locations) and objects allocated by earlier iterations
+                # were written: every other object that existed at loop entry keeps its value
+                r = z3.Int("r!lf")
+                cond = z3.And(r > 0, r < st.alloc, *[r != ix for ix in how])
+                s0.assume(z3.ForAll([r], z3.Implies(cond, z3.Select(s0.heap.get(key), r) == z3.Select(entry_heap.get(key), r))))
         for name in assigned:
             if name in s0.env:
                 s0.env[name] = self.havoc_value(s0, s0.env[name], name)
@@ -300,14 +306,16 @@ class LoopMixin:
 
     def dry_run_writes(self, node, st, fr, head, step, assigned, cursor_key, bind_cursor):
         """Heap components the body may write: run the body once from a fully havocked heap."""
+        from .state import counter_value
         s = st.copy()
+        c0 = counter_value()
         for key in list(s.heap.comps):
             if key[0] != "cls":
                 s.heap.havoc(key)
         for name in assigned:
             if name in s.env:
                 s.env[name] = self.havoc_value(s, s.env[name], name)
-        s.bump_alloc_unknown()
+        _lo, a_dry = s.bump_alloc_unknown()
         bind_cursor(s)
         base = s.heap.snapshot()
         self.dry += 1
@@ -318,12 +326,55 @@ class LoopMixin:
                 outs = self.ex(node.body, s, fr, lambda s3: [(s3, "iterend", None)])
         finally:
             self.dry -= 1
-        written = set()
+        written = {}
+
+        def is_stable(t):
+            # no symbol created during the dry run occurs in the index term
+            todo, seen = [t], set()
+            while todo:
+                x = todo.pop()
+                if x.get_id() in seen:
+                    continue
+                seen.add(x.get_id())
+                if z3.is_const(x) and x.decl().kind() == z3.Z3_OP_UNINTERPRETED:
+                    nm = x.decl().name()
+                    if "!" in nm:
+                        try:
+                            if int(nm.rsplit("!", 1)[1]) > c0:
+                                return False
+                        except ValueError:
+                            pass
+                todo.extend(x.children())
+            return True
+
         for (s2, kind, p) in outs:
             for key in s2.heap.changed_keys(base):
                 if key[0] == "cls":
                     continue
-                written.add(key)
+                if key[0] == "g" or written.get(key) == "whole":
+                    written[key] = "whole"
+                    continue
+                t = s2.heap.comps.get(key)
+                b = base.comps.get(key, base.initial.get(key))
+                locs = []
+                ok = t is not None and b is not None
+                while ok and not t.eq(b):
+                    if z3.is_store(t):
+                        ix = t.arg(1)
+                        if is_stable(ix):
+                            locs.append(ix)
+                        elif self.feasible(s2, ix < a_dry):
+                            ok = False
+                        t = t.arg(0)
+                    else:
+                        ok = False
+                if not ok:
+                    written[key] = "whole"
+                else:
+                    cur = written.setdefault(key, [])
+                    for ix in locs:
+                        if not any(ix.eq(y) for y in cur):
+                            cur.append(ix)
         if cursor_key is not None:
-            written.add(cursor_key)
+            written[cursor_key] = "whole"
         return written
